@@ -1683,3 +1683,34 @@ package ir
 //@   requires inst.Typ == nil || inst.Typ == aggty(vtype(inst.X), inst.Indices)
 //@   assigns caches
 //@   ensures result == aggty(vtype(inst.X), inst.Indices) && inst.Typ == result
+
+//@ # ---------------------------------------------------------------- identifiers (C08 C13 C14) ---
+//@ # Field-level contracts of the identifier methods; together with the static obligation ident-impls
+//@ # (every namedVar gets them by promotion from an identifier embedded by value) they justify the
+//@ # interface contracts over nvid/nvun above.
+//@ func (LocalIdent).ID
+//@   props C08 C13 C14
+//@   assigns nothing
+//@   ensures result == i.LocalID
+//@ func (*LocalIdent).SetID
+//@   props C08 C13 C14
+//@   requires i != nil
+//@   assigns i.LocalID
+//@   ensures i.LocalID == id
+//@ func (LocalIdent).IsUnnamed
+//@   props C08 C13 C14
+//@   assigns nothing
+//@   ensures result == (len(i.LocalName) == 0)
+//@ func (GlobalIdent).ID
+//@   props C08 C13 C14
+//@   assigns nothing
+//@   ensures result == i.GlobalID
+//@ func (*GlobalIdent).SetID
+//@   props C08 C13 C14
+//@   requires i != nil
+//@   assigns i.GlobalID
+//@   ensures i.GlobalID == id
+//@ func (GlobalIdent).IsUnnamed
+//@   props C08 C13 C14
+//@   assigns nothing
+//@   ensures result == (len(i.GlobalName) == 0)
